@@ -299,6 +299,14 @@ class MgrTrans(MFull):
             if name == "len" and not args:
                 return V(f"s.{tb['lean']}.length", ("usize",))
             raise ShapeError(f"{ctx.what}: `.{name}` on a table is outside the subset here")
+        # pure functions of a FAT volume whose record has been read
+        if recv[0] == "path" and len(recv[1]) == 1 and recv[1][0] in env and env[recv[1][0]][0] == "fatvol" and \
+                name in FAT_CALLS and FAT_CALLS[name][2]:
+            rec = env[recv[1][0]][2]
+            if rec is None:
+                raise ShapeError(f"{ctx.what}: internal: the volume record of `{recv[1][0]}` was not read beforehand")
+            vs = [self.tr(a, env, ctx) for a in args]
+            return V(f"({FAT_CALLS[name][0]} {rec}.vol" + "".join(" " + self.arg(v, ctx) for v in vs) + ")", FAT_RET[name])
         # the time source
         if recv == ("field", ("path", ["self"]), "time_source") and name == "get_timestamp" and not args:
             return V("s.clock", ("opaque", "Timestamp"))
@@ -412,6 +420,12 @@ class MgrStmts:
                 if el is not None or is_alias:
                     if el is not None:
                         self.collect_elem_reads(el[1], env, ctx, out, False)
+                        if self.pure_fat_body(node, env, ctx):
+                            elem = sc[1]
+                            while elem[0] in ("ref", "deref"):
+                                elem = elem[1]
+                            if elem not in out:
+                                out.append(elem)
                     # a single arm `VolumeType::Fat(fat) => expr`: the expression is evaluated now
                     if len(node[2]) == 1 and node[2][0][2][0] != "block":
                         self.collect_elem_reads(node[2][0][2], env, ctx, out, False)
@@ -445,6 +459,16 @@ class MgrStmts:
             if node not in out:
                 out.append(node)
             return
+        if k == "mcall" and node[2] in ("is_err", "is_ok") and not node[3]:
+            try:
+                cls = self.mclass(node[1], env, ctx)
+            except ShapeError:
+                cls = ("pure", None)
+            if cls[0] == "m":
+                for a in node[1][3]:
+                    self.collect_elem_reads(a, env, ctx, out, False)
+                out.append(("attempt", node[1]))
+                return
         if k == "mcall" and not top:
             try:
                 cls = self.mclass(node, env, ctx)
@@ -526,10 +550,29 @@ class MgrStmts:
             return ("match", self.subst_now(node[1], mapping, env, ctx), arms)
         if k == "let":
             return ("let", node[1], node[2], self.subst_now(node[3], mapping, env, ctx))
+        if k == "assign" and node[1] == "=" and self.elem_root(node[2], env, ctx) is not None:
+            # the element on the left is a place, not a read: only its index is evaluated
+            return ("assign", node[1], self.subst_place(node[2], mapping, env, ctx),
+                    self.subst_now(node[3], mapping, env, ctx))
+        if k == "mcall":
+            root = self.elem_root(node[1], env, ctx)
+            if root is not None and self.is_mut_vmethod(root, node[2], ctx):
+                return ("mcall", self.subst_place(node[1], mapping, env, ctx), node[2],
+                        [self.subst_now(a, mapping, env, ctx) for a in node[3]])
         for old, new in mapping:
             if node == old:
                 return new
         return tuple(self.subst_now(x, mapping, env, ctx) if isinstance(x, (tuple, list)) else x for x in node)
+
+    def subst_place(self, place, mapping, env, ctx):
+        """`ROOT.t[i].a.b` as a place: the substitution reaches the index only"""
+        if place[0] in ("ref", "deref"):
+            return (place[0], self.subst_place(place[1], mapping, env, ctx)) + tuple(place[2:])
+        if place[0] == "field":
+            return ("field", self.subst_place(place[1], mapping, env, ctx), place[2])
+        if place[0] == "index" and self.elem_of(place, env, ctx) is not None:
+            return ("index", place[1], self.subst_now(place[2], mapping, env, ctx))
+        return place
 
     def subst(self, node, mapping):
         if isinstance(node, tuple):
@@ -562,6 +605,14 @@ class MgrStmts:
         env2 = dict(env)
         mapping, pre = [], []
         for node in reads:
+            if node[0] == "attempt":
+                call = node[1]
+                cls = self.mclass(self.subst(call, mapping), env2, ctx)
+                tmp = self.tmp()
+                env2[tmp] = ("res", tmp, cls[2])
+                mapping.append((call, ("path", [tmp])))
+                pre.append((tmp, f"(M.attempt {cls[1]})", True))
+                continue
             if self.elem_of(node, env, ctx) is None:
                 cls = self.mclass(self.subst(node, mapping), env2, ctx)
                 tmp = self.tmp()
@@ -581,7 +632,13 @@ class MgrStmts:
         s2 = self.subst_now(s, mapping, env, ctx)
         text = super().mrun([s2] + stmts[1:], env2, ctx, lambda env3: k({n: b for n, b in env3.items()
                                                                         if n not in [p[0] for p in pre]}))
-        for tmp, get in reversed(pre):
+        for ent in reversed(pre):
+            tmp, get = ent[0], ent[1]
+            if len(ent) == 3:
+                # `call.is_err()`: only an `Err` is looked at, a panic of the call is a panic here
+                pm = self.tmp()
+                text = (f"(match {tmp} with | Res.panic {pm} => M.panic {pm} | Res.diverged => M.diverge "
+                        f"| _ => {text})")
             text = self.bind(get, tmp, text)
         return text
 
@@ -677,6 +734,8 @@ class MgrStmts:
             fv = self.fatvol_scrut(e[1], env, ctx)
             pat, guard, body = e[2][0]
             if fv is not None and guard is None and body[0] != "block":
+                if self.pure_fat_body(e, env, ctx):
+                    return ("pure", None)
                 env2 = self.bind_fat(pat, fv, env, ctx)
                 return self.mclass(body, env2, ctx)
         if e[0] != "mcall":
@@ -752,6 +811,9 @@ class MgrStmts:
             if inner[0] == "mv":
                 e_ = self.const_err(args[0], env, ctx)
                 return ("m", inner[1](f"M.fail {e_}"), inner[2], False)
+            if inner[0] == "mo":
+                e_ = self.const_err(args[0], env, ctx)
+                return ("mo", inner[1], inner[2], False, inner[4], e_)
         if name in ("unwrap", "ok") and not args:
             inner = self.mclass(recv, env, ctx)
             if inner[0] == "push" and name == "unwrap":
@@ -789,7 +851,20 @@ class MgrStmts:
             key = ("VolumeManager", name)
         if key is not None and key in self.items.fns and self.is_monadic(key):
             info = self.translate_m(key)
-            vs = [self.tr(a, env, ctx) for a in args]
+            outnames = [n for n, _t in info.outparams]
+            back = []
+            args2 = []
+            for pn, a in zip(info.param_names, args):
+                if pn in outnames:
+                    inner = a
+                    if not (inner[0] == "ref" and len(inner) == 3 and inner[1][0] == "path" and len(inner[1][1]) == 1 and
+                            inner[1][1][0] in env and env[inner[1][1][0]][0] == "val"):
+                        raise ShapeError(f"{ctx.what}: `&mut` argument of {name} must be a local variable")
+                    back.append(inner[1][1][0])
+                    args2.append(inner[1])
+                else:
+                    args2.append(a)
+            vs = [self.tr(a, env, ctx) for a in args2]
             it = iter(info.params[1:] if info.fuel else info.params)
             actual = []
             for v in vs:
@@ -800,6 +875,8 @@ class MgrStmts:
                 ctx.info.fuel = True
                 actual = ["fuel"] + actual
             lean = info.name + "".join(" " + a for a in actual)
+            if back:
+                return ("mo", f"({lean})", info.ret, False, back, None)
             return ("m" if info.fallible else "mi", f"({lean})" if actual else lean, info.ret, False)
         # `&mut self` methods of a table element: read - call - write back
         root = self.elem_root(recv, env, ctx)
@@ -994,6 +1071,11 @@ class MgrStmts:
     # ------------------------------------------------------------------ `match .. { VolumeType::Fat(fat) => .. }`
     def fatvol_scrut(self, scrut, env, ctx):
         """`ROOT.open_volumes[i].volume_type` / `alias.volume_type` -> Lean text of the index"""
+        r = self.fatvol_scrut2(scrut, env, ctx)
+        return None if r is None else r[0]
+
+    def fatvol_scrut2(self, scrut, env, ctx):
+        """-> (index text, Lean name of the bound VolInfo or None)"""
         e = scrut
         while e[0] in ("ref", "deref"):
             e = e[1]
@@ -1001,16 +1083,16 @@ class MgrStmts:
             el = self.elem_of(e[1], env, ctx)
             if el is not None and el[0] == "open_volumes":
                 iv = self.tr(el[1], env, ctx)
-                return self.arg(iv, ctx)
+                return self.arg(iv, ctx), None
             b = e[1]
             while b[0] in ("ref", "deref"):
                 b = b[1]
             if b[0] == "path" and len(b[1]) == 1 and b[1][0] in self.elem_origin and \
-                    self.elem_origin[b[1][0]][0] == "open_volumes":
-                return self.elem_origin[b[1][0]][1]
+                    self.elem_origin[b[1][0]][0] == "open_volumes" and b[1][0] in env:
+                return self.elem_origin[b[1][0]][1], env[b[1][0]][1]
         return None
 
-    def bind_fat(self, pat, fv, env, ctx):
+    def bind_fat(self, pat, fv, env, ctx, rec=None):
         while pat[0] == "pref":
             pat = pat[1]
         if not (pat[0] == "ptuple" and pat[1][-1] == "Fat" and len(pat[2]) == 1):
@@ -1021,7 +1103,7 @@ class MgrStmts:
         if p[0] not in ("pbind", "pbindref"):
             raise ShapeError(f"{ctx.what}: the FAT volume must be bound to a name")
         env2 = dict(env)
-        env2[p[1]] = ("fatvol", fv)
+        env2[p[1]] = ("fatvol", fv, rec)
         return env2
 
     def match_on(self, scrut, arms, env, ctx, leaf):
@@ -1034,11 +1116,18 @@ class MgrStmts:
         return super().match_on(scrut, arms, env, ctx, leaf)
 
     def tr_match(self, e, env, ctx, leaf=None):
-        fv = self.fatvol_scrut(e[1], env, ctx)
+        fv = self.fatvol_scrut2(e[1], env, ctx)
         if fv is not None and len(e[2]) == 1 and e[2][0][1] is None:
-            env2 = self.bind_fat(e[2][0][0], fv, env, ctx)
+            env2 = self.bind_fat(e[2][0][0], fv[0], env, ctx, fv[1])
             return (leaf or self.tr)(e[2][0][2], env2, ctx)
         return super().tr_match(e, env, ctx, leaf)
+
+    def pure_fat_body(self, node, env, ctx):
+        """`match ROOT.open_volumes[i].volume_type { VolumeType::Fat(fat) => fat.pure_fn(..) }`?"""
+        if node[0] != "match" or len(node[2]) != 1:
+            return False
+        body = node[2][0][2]
+        return body[0] == "mcall" and body[2] in FAT_CALLS and FAT_CALLS[body[2]][2]
 
 
 class MgrLoops:
@@ -1383,6 +1472,8 @@ class MgrMisc:
                 self.res(env[b[1][0]][2])[0] == "vrec":
             n = b[1][0]
             var = env[n][1]
+            if n in self.elem_origin:
+                raise ShapeError(f"{ctx.what}: internal: assignment into the snapshot of a table element")
             if op != "=":
                 rhs = ("bin", op[:-1], lhs, rhs)
             v = self.tr(rhs, env, ctx)
@@ -1468,6 +1559,7 @@ MGR_FUNCTIONS = [
     ("VolumeManager", "open_root_dir"), ("VolumeManager", "close_dir"), ("VolumeManager", "close_volume"),
     ("VolumeManager", "flush_file"), ("VolumeManager", "close_file"), ("VolumeManager", "delete_file_in_dir"),
     ("VolumeManager", "open_dir"), ("VolumeManager", "open_file_in_dir"), ("VolumeManager", "open_raw_volume"),
+    ("VolumeManagerData", "find_data_on_disk"), ("VolumeManager", "read"), ("VolumeManager", "write"),
 ]
 MGR_PURE = [(None, "solve_mode_variant")]
 
@@ -1476,8 +1568,9 @@ LEAN_HEADER_MGR = '''/-!
 
 Every definition below is produced by `tools/translate_mgr.py` (called from tools/extract.py) from the
 text of volume_mgr.rs, filesystem/files.rs, filesystem/handles.rs, filesystem/attributes.rs; nothing here is
-written by hand.  `Props/C{01,02,07,08,15}GenM.lean` prove each definition EQUAL to the hand-written
-`Model/Mgr.lean` as a function `Mgr → Res α × Mgr`.  Statements, loops, `?`, early returns are translated as
+written by hand.  `Props/C{01,02,07,08,15}GenM.lean`, `Props/C01Gen{Find,Read,Write}.lean` prove each definition
+EQUAL to the hand-written `Model/Mgr.lean` as a function `Mgr → Res α × Mgr` (`read` / `write`: up to the state
+left behind by a panic, see `Lemmas/GenMgrIO.lean`, `PEq`).  Statements, loops, `?`, early returns are translated as
 in `Gen/FunsM.lean`; what is added at this level:
 
 ## State map (hand-written table in translate_mgr.py — part of the trusted base)
@@ -1514,6 +1607,28 @@ in `Gen/FunsM.lean`; what is added at this level:
   `free_cluster_chain`, `alloc_cluster`, `next_cluster`, `update_info_sector` (translated in `Gen/FunsM.lean`
   and proved equal to the model there), and `fat::parse_volume` is `parseVolume` below (the model's
   sequence of reads and parsers).  `data.block_cache.read(..)` etc. outside a volume are `cacheOp (..)`.
+* `fat.bytes_per_cluster()`, `fat.cluster_to_block(c)` (pure functions of the volume record) are
+  `Fat.bytesPerCluster v.vol`, `Fat.clusterToBlock v.vol c` of the record read with `getVolInfo i` (BINDINGS to the
+  model's functions; `Props/C04Gen.lean` ties both to the translated Rust).
+* A parameter `p: &mut (A, B)` of a Copy tuple type (`find_data_on_disk`'s `start`) is an ordinary argument and the
+  function answers the PAIR (last value of `p`, result) on every exit, `?` and `return` included (a panic has no
+  pair).  `p.0 = e` / `p.1 = e` replace one component.  At a call the argument must be `&mut x` of a local `x`;
+  `x` is rebound to the first component before the result is looked at (`match`, `?`, `.map_err(|_| E)?`).
+* A parameter `buffer: &mut [u8]` is a byte list and is handed back next to the value on success (`Ok(n)` is
+  `(n, buffer)`); what the caller's buffer holds after an `Err` is NOT modelled.  `buffer: &[u8]` is a byte list.
+  `dst[a..a + n].copy_from_slice(&src[b..b + n])` (the same expression `n` on both sides, anything else is
+  rejected) is `take a dst ++ drop b (take (b + n) src) ++ drop (a + n) dst`; the range checks of the two slices
+  are not modelled (as arithmetic overflow is not).
+* `for _ in 0..n { .. }` is a definition by recursion on the number of iterations left (no fuel).
+* `let x = a / b;` (`%`) with a divisor that is not a non-zero constant is `if b = 0 then M.panic "attempt to
+  divide by zero"` (`"attempt to calculate the remainder with a divisor of zero"`) `else ..`; `a`, `b` must be
+  plain (names, fields, literals, casts, `+ - *`), any other place of such a division is rejected.
+* `if call(..).is_err() { .. }` on a call written in place: `M.attempt call`, a panic / an exhausted fuel of the
+  call is passed on at once, then `isOk r = false`.
+* An element read `data.open_files[i]` in the right operand of `&&` / `||` is done before the statement like every
+  other read of the statement (the place of the out-of-range panic INSIDE one statement is not modelled).  The
+  element on the left of `=` and the receiver of a `&mut self` method are places: only their index is read.
+* `module::CONST` is the constant `CONST` at the top level of `module.rs` / `module/mod.rs`.
 * `assert!(c)` is `if c then .. else M.panic "assertion failed: <source text of c>"`; `const` items of a
   function body are evaluated where they are used; byte-string literals are byte lists; `i32` / `i64` are
   `Int` (`i64::from`, `+`, comparisons exact; `x as u32` is `Int.toNat (x % 2^32)`, `n as i32` is the
@@ -1572,10 +1687,9 @@ def render_mgr(T):
     for key in T.morder:
         info = T.mdone[key]
         ps = "".join(f" ({n} : {T.lean_type(t, info.name)})" for n, t in info.params)
-        for header, (pat, body), _rank in sorted(info.aux, key=lambda a: a[2]):
-            lines.append(f"/-- A loop of {info.doc}; `fuel` bounds the number of iterations. -/\n{header}\n"
-                         f"  | 0, _ => {T.mon}.diverge\n  | fuel + 1, {pat} =>\n    {pretty_m(body, 4)}\n")
-        rt = T.lean_type(info.ret, info.name)
+        for a in sorted(info.aux, key=lambda a: a[2]):
+            lines.append(translate_m.render_loop(T, info, a))
+        rt = T.lean_type(info.ret, info.name) if info.pure else T.raw_ret_lean(info, info.name)
         if not info.pure:
             rt = f"{T.mon} ({rt})" if " " in rt else f"{T.mon} {rt}"
         lines.append(f"/-- {info.doc}. -/\ndef {info.name}{ps} : {rt} :=\n  "
@@ -1594,6 +1708,6 @@ def generate_mgr(read_src, functions=None, pure=None):
     for key in (MGR_FUNCTIONS if functions is None else functions):
         T.translate_m(key)
     text = render_mgr(T)
-    summary = {("::".join(str(x) for x in k)): [T.mdone[k].name, T.mdone[k].body, [b for _h, (_p, b), _r in T.mdone[k].aux]]
+    summary = {("::".join(str(x) for x in k)): [T.mdone[k].name, T.mdone[k].body, [a[1][1] for a in T.mdone[k].aux]]
                for k in T.morder}
     return text, summary
